@@ -479,28 +479,45 @@ def normalize_hostname(hostname):
 def parse_ipv4_int(text):
     if text.startswith('0x'):
         base = 16
+        text = text[2:] or '0'
     elif text.startswith('0'):
         base = 8
     else:
         base = 10
 
+    if not text.isalnum() or not text.isascii():
+        # int() tolerates signs, spaces, underscores and non-ASCII digits
+        raise ValueError('Not a number')
+
     return int(text, base)
 
 
 def normalize_ipv4_address(address):
-    num_decimals = address.count('.')
+    '''Normalize the numeric spellings accepted by ``inet_aton``.
 
-    if num_decimals == 0:
-        return ipaddress.IPv4Address(parse_ipv4_int(address)).compressed
-    elif num_decimals == 3:
-        return ipaddress.IPv4Address(
-            sum(
-                parse_ipv4_int(part) << (24 - index * 8)
-                for index, part in enumerate(address.split('.'))
-            )
-        ).compressed
-    else:
+    There may be one to four parts (``127.1``, ``0x7f.0.1``) of which the
+    last fills the remaining bytes, and one trailing dot.
+    '''
+    parts = address.split('.')
+
+    if len(parts) > 1 and not parts[-1]:
+        parts.pop()
+
+    if len(parts) > 4:
         raise ValueError('Not an IPv4 address')
+
+    numbers = [parse_ipv4_int(part) for part in parts]
+
+    if any(number > 255 for number in numbers[:-1]) \
+            or numbers[-1] >= 256 ** (5 - len(numbers)):
+        raise ValueError('Not an IPv4 address')
+
+    return ipaddress.IPv4Address(
+        numbers[-1] + sum(
+            number << (24 - index * 8)
+            for index, number in enumerate(numbers[:-1])
+        )
+    ).compressed
 
 
 def normalize_path(path, encoding='utf-8'):
